@@ -56,7 +56,15 @@ impl Float {
         let mut term = one.clone();
 
         // Use Euler's continued fraction, which is a simple series.
-        let iterations: i64 = (sem.get_exponent_len() * 2) as i64;
+        // An n-level fraction is accurate to about 1/n!, so take enough
+        // levels for n! to exceed 2^(precision + 8).
+        let mut levels: usize = 1;
+        let mut bits: usize = 0;
+        while bits < sem.get_precision() + 8 {
+            levels += 1;
+            bits += (usize::BITS - 1 - levels.leading_zeros()) as usize;
+        }
+        let iterations: i64 = levels.max(sem.get_exponent_len() * 2) as i64;
         for i in (1..iterations).rev() {
             let v = Self::from_i64(sem, i);
             term = &v + &v / &term;
